@@ -1,8 +1,8 @@
 (* Lemmas about Derive.v (C14): the AutoDerive walk keeps its map closed under "contains" -- an item that ends up
-   with the derive (Yes or Delay) only contains items that end up with it -- provided every path PathCollector finds
-   is an edge of the graph the downgrade consults; hence every derived impl type-checks unless a btree container
-   hides an unsupported kind (finding F-14k).  Both side conditions are necessary (refutations; the second is finding
-   F-14s: a cycle closed through Arc / BTreeSet / BTreeMap). *)
+   with the derive (Yes or Delay) only contains items that end up with it -- because every path PathCollector finds
+   is an edge of the graph the downgrade consults (the workspace graph; true of every graph since the repair of
+   finding F-14s); hence every derived impl type-checks (the predicate closures decide exactly "consists of supporting
+   kinds" since the repair of finding F-14k). *)
 From Coq Require Import String List Bool Arith Lia.
 From PVBld Require Import Generated.DeriveTables BoxCycle Derive Proofs.BoxCycleP.
 Import ListNotations.
@@ -12,9 +12,9 @@ Import ListNotations.
 Lemma ty_kinds_as_modelled : ty_kind_names = (map base_name all_base ++ container_names)%list.
 Proof. vm_compute. reflexivity. Qed.
 
-(* both predicate closures peel Vec only ([peel_vec]); the PartialOrd instance runs first *)
+(* holds_kind looks through Vec / BTreeSet / Arc and BTreeMap ([holds_kind]); the PartialOrd instance runs first *)
 Lemma pred_shape_as_modelled :
-  po_pred_peel = ["Vec"%string] /\ heo_pred_peel = ["Vec"%string] /\
+  pred_through1 = ["Vec"; "BTreeSet"; "Arc"]%string /\ pred_through2 = ["BTreeMap"%string] /\
   derive_instances = ["#[derive(PartialOrd)]"%string; "#[derive(Hash, Eq, Ord)]"%string].
 Proof. vm_compute. auto. Qed.
 
@@ -28,13 +28,14 @@ Proof. unfold downgrade_edges. rewrite downgrade_uses_workspace_graph. reflexivi
 (* the source text of the functions the model transcribes (digests computed by the translator) *)
 Lemma derive_sources_pinned :
   derive_source_digests =
-  [("can_derive", "e6c946441c3ff744581bf7897ff9751fe64391d2d66d5951f3c8263906375974");
+  [("holds_kind", "c3ed8c572afd2116c317c92ab16e05052d8ce277ef50e79fa88d9ba6f0f7d69d");
+   ("can_derive", "e6c946441c3ff744581bf7897ff9751fe64391d2d66d5951f3c8263906375974");
    ("on_item", "3087f3389d8da7768eb91312194279e0760b049174352720037ba704d37c5a3b");
    ("on_emit", "600bf82f1cd1bff75792f2b718e510832081107158bb16bb3c20ac5f06474e53");
    ("PathCollector", "5dc335484c242e94ca7654df11fcc4f8306a6c5fbd86fc83e7ec26a5770f5f06");
    ("Visitor", "70f2539c72228a2de151fc02eab3ffebe233f830eb6fcc4928d403be61466685");
    ("walk_ty", "16be0680876d461277b94b77193edad97f262cf001d84917d6e16e25f8be043b");
-   ("WorkspaceGraph::from_items", "f9c89b063f3489400976cf0558af625ac4aea9bebed1a8d88bd3c4c43ba346f3");
+   ("WorkspaceGraph::from_items", "64f22fe9bd23268e1dc164a6733df09b3176cb242a2e9f35242a23f3213be92f");
    ("WorkspaceGraph::is_nested", "a85b2a9e42f556cc3f2797790988aad5a9031816d38166572950d1eb42bcdc11");
    ("TypeGraph::from_items", "154daad86c71f45c0f6484f588a8d1c740bb4a9db0df315ebf718551b6975830");
    ("TypeGraph::is_nested", "a85b2a9e42f556cc3f2797790988aad5a9031816d38166572950d1eb42bcdc11")]%string.
@@ -521,45 +522,28 @@ Proof.
     destruct H; discriminate.
 Qed.
 
-Lemma pred_no_vec tr t : pred_no tr (DVec t) = pred_no tr t.
-Proof. reflexivity. Qed.
-
-(* where no btree container / Arc is in the way, the predicate closures decide exactly "consists of supporting kinds" *)
-Lemma pred_adequate tr t : opaque_top (peel_vec t) = false -> pred_no tr t = negb (kinds_ok tr t).
+(* the predicate closures decide exactly "consists of supporting kinds" (by cases over the regenerated tables) *)
+Lemma pred_adequate tr t : pred_no tr t = negb (kinds_ok tr t).
 Proof.
-  induction t as [b|d|t IH|t _|t _|k _ v _|k _ v _|t _]; cbn [peel_vec opaque_top kinds_ok]; intros H; try discriminate.
+  unfold pred_no.
+  induction t as [b|d|t IH|t _|t IH|k _ v _|k IHk v IHv|t IH]; cbn [holds_kind kinds_ok]; auto.
   - destruct tr, b; vm_compute; reflexivity.
   - destruct tr; vm_compute; reflexivity.
-  - rewrite pred_no_vec. now apply IH.
   - destruct tr; vm_compute; reflexivity.
   - destruct tr; vm_compute; reflexivity.
-Qed.
-
-Lemma btree_unsupported_false tr g d it ds t :
-  btree_unsupported_b tr g = false -> In (d, it) g -> deps it = Some ds -> In t ds ->
-  btree_with_unsupported tr t = false.
-Proof.
-  intros B I D T. unfold btree_unsupported_b in B.
-  destruct (btree_with_unsupported tr t) eqn:Q; [|reflexivity].
-  assert (existsb (fun di => match deps (snd di) with Some ds => existsb (btree_with_unsupported tr) ds | None => false end) g = true);
-    [|congruence].
-  apply existsb_exists. exists (d, it). split; [assumption|]. cbn [snd]. rewrite D.
-  apply existsb_exists. exists t. auto.
+  - rewrite IHk, IHv. now rewrite negb_andb.
 Qed.
 
 Lemma topinv_consistent tr g m :
-  TopInv g (pred_no tr) m -> btree_unsupported_b tr g = false -> consistent tr g (derives m).
+  TopInv g (pred_no tr) m -> consistent tr g (derives m).
 Proof.
-  intros [Y L P] B d it ds F Dp Dd. apply derives_okm in Dd.
+  intros [Y L P] d it ds F Dp Dd. apply derives_okm in Dd.
   destruct (P d Dd) as [it' [ds' [F' [Dp' Pr]]]]. rewrite F in F'. injection F' as <-. rewrite Dp in Dp'. injection Dp' as <-.
   apply forallb_forall. intros t Ht. unfold ty_ok. apply andb_true_iff. split.
   - assert (Pt : pred_no tr t = false).
     { destruct (pred_no tr t) eqn:Q; [|reflexivity].
       assert (existsb (pred_no tr) ds = true) by (apply existsb_exists; eauto). congruence. }
-    destruct (opaque_top (peel_vec t)) eqn:O.
-    + pose proof (btree_unsupported_false tr g d it ds t B (find_item_in g d it F) Dp Ht) as Q.
-      unfold btree_with_unsupported in Q. rewrite O in Q. cbn in Q. now apply negb_false_iff in Q.
-    + rewrite (pred_adequate tr t O) in Pt. now apply negb_false_iff in Pt.
+    rewrite pred_adequate in Pt. now apply negb_false_iff in Pt.
   - apply forallb_forall. intros p Hp. apply derives_okm.
     assert (In p (paths_of g d)).
     { unfold paths_of. rewrite F, Dp. apply in_flat_map. eauto. }
@@ -602,17 +586,31 @@ Proof.
   unfold item_edges. cbn [fst snd]. rewrite Dp. now apply in_map.
 Qed.
 
+Lemma ws_visit_collect t : ws_visit t = collect t.
+Proof.
+  induction t as [b|d|t IH|t IH|t IH|k IHk v IHv|k IHk v IHv|t IH]; cbn [ws_visit collect]; auto; now rewrite IHk, IHv.
+Qed.
+
+(* since the repair of F-14s the workspace graph has an edge for every path PathCollector finds *)
+Lemma ws_complete_all g : ws_complete_b g = true.
+Proof.
+  unfold ws_complete_b. apply forallb_forall. intros [d it] _. cbn [snd]. destruct (deps it) as [ds|]; [|reflexivity].
+  apply forallb_forall. intros p Hp. apply memb_in.
+  apply in_flat_map in Hp. destruct Hp as [t [Ht Hp]]. apply in_flat_map. exists t. split; [assumption|].
+  now rewrite ws_visit_collect.
+Qed.
+
 (* ---- C14_derive_sound -------------------------------------------------------------------------------------------------------- *)
 Theorem derive_sound tr g order m :
   run tr g order = Done m ->
-  closed_b g = true -> ws_complete_b g = true -> btree_unsupported_b tr g = false ->
+  closed_b g = true ->
   consistent tr g (derives m) /\ forall d, derives m d = true -> supports tr g d.
 Proof.
-  intros R C W B. unfold run in R.
+  intros R C. unfold run in R.
   assert (T : TopInv g (pred_no tr) m).
   { eapply run_items_top; [apply closed_b_closed; exact C| |apply top_empty|exact R].
-    rewrite downgrade_edges_ws. apply ws_complete_edges. exact W. }
-  pose proof (topinv_consistent tr g m T B) as Cs. split; [exact Cs|].
+    rewrite downgrade_edges_ws. apply ws_complete_edges. apply ws_complete_all. }
+  pose proof (topinv_consistent tr g m T) as Cs. split; [exact Cs|].
   intros d Dd. eapply consistent_supports; eauto.
 Qed.
 
@@ -903,10 +901,7 @@ Section NoComplete.
 End NoComplete.
 
 Lemma ws_visit_sub t p : In p (ws_visit t) -> In p (collect t).
-Proof.
-  induction t as [b|d|t IH|t IH|t _|k IHk v IHv|k _ v _|t _]; cbn [ws_visit collect]; auto; try (intros []).
-  intros H. apply in_app_iff in H. apply in_app_iff. destruct H; [left|right]; auto.
-Qed.
+Proof. now rewrite ws_visit_collect. Qed.
 
 (* with unique ids, every edge of the workspace graph is a path of its source item *)
 Lemma ws_edges_sub g : NoDup (map fst g) -> forall a b, In (a, b) (ws_edges g) -> In b (paths_of g a).
@@ -922,17 +917,17 @@ Qed.
 
 Lemma pred_po_heo t : pred_no PO t = true -> pred_no HEO t = true.
 Proof.
-  unfold pred_no. generalize (top_name (peel_vec t)). intros n. unfold pred_table.
-  unfold mem_str. rewrite !existsb_exists. intros [x [I Q]]. exists x. split; [|assumption].
-  revert I. vm_compute. tauto.
+  rewrite !pred_adequate, !negb_true_iff.
+  induction t as [b|d|t IH|t _|t IH|k _ v _|k IHk v IHv|t IH]; cbn [kinds_ok]; auto; try discriminate.
+  intros H. apply andb_false_iff in H. apply andb_false_iff. destruct H; [left|right]; auto.
 Qed.
 
 Theorem derive_ord_implies_partialord g order mp mh :
-  NoDup (map fst g) -> closed_b g = true -> ws_complete_b g = true ->
+  NoDup (map fst g) -> closed_b g = true ->
   run PO g order = Done mp -> run HEO g order = Done mh ->
   forall d, In d order -> derives mh d = true -> derives mp d = true.
 Proof.
-  intros ND C W RP RH d Hd Dh. unfold run in *.
+  intros ND C RP RH d Hd Dh. unfold run in *. pose proof (ws_complete_all g) as W.
   pose proof (closed_b_closed g C) as Hc.
   assert (Hsub : forall a b, In (a, b) (downgrade_edges g) -> In b (paths_of g a))
     by (rewrite downgrade_edges_ws; now apply ws_edges_sub).
@@ -958,44 +953,30 @@ Proof.
   assert (existsb (pred_no HEO) ds' = true) by (apply existsb_exists; eauto). congruence.
 Qed.
 
-(* ---- both side conditions are necessary --------------------------------------------------------------------------------------- *)
-(* finding F-14k: struct S { 1: map<i32, double> m (pilota.rust_type = "btree") } *)
+(* ---- the witnesses of the two repaired findings -------------------------------------------------------------------------------- *)
+(* finding F-14k (repaired): struct S { 1: map<i32, double> m (pilota.rust_type = "btree") } got #[derive(Hash, Eq, Ord)]
+   because the predicate closure tested the top of the type only; it looks inside btree containers now *)
 Definition btree_double : dgraph := [(0, DMsg [DBTreeMap (DBase BI32) (DBase BF64)])].
 
-Lemma derive_btree_refuted :
-  exists m, run HEO btree_double [0] = Done m /\
-    closed_b btree_double = true /\ ws_complete_b btree_double = true /\ btree_unsupported_b HEO btree_double = true /\
-    derives m 0 = true /\ ~ consistent HEO btree_double (derives m) /\ ~ supports HEO btree_double 0.
-Proof.
-  eexists. split; [vm_compute; reflexivity|]. repeat split; try (vm_compute; reflexivity).
-  - intros C. specialize (C 0 _ _ eq_refl eq_refl eq_refl). vm_compute in C. discriminate.
-  - intros S. specialize (S 0 _ _ (contains_refl _ 0) eq_refl eq_refl). vm_compute in S. discriminate.
-Qed.
+Example derive_btree_fixed :
+  decisions HEO btree_double [0] = Done [(0, No)] /\ decisions PO btree_double [0] = Done [(0, Yes)] /\
+  verdict HEO btree_double [0] = Done true.
+Proof. repeat split; vm_compute; reflexivity. Qed.
 
-(* finding F-14s: struct A { 1: B b, 2: N n }  struct B { 1: optional A a (pilota.rust_wrapper_arc = "true") }
-   struct N { 1: double x } -- B is delayed on A, A becomes No through N, and B is not downgraded because the edge
-   B -> A below Arc is not in the workspace graph.  Likewise below BTreeSet / BTreeMap. *)
+(* finding F-14s (repaired): struct A { 1: B b, 2: N n }  struct B { 1: optional A a (pilota.rust_wrapper_arc = "true") }
+   struct N { 1: double x } -- B is delayed on A, A becomes No through N; the edge B -> A below Arc (likewise below
+   BTreeSet / BTreeMap) was not in the workspace graph, so B was not downgraded and kept the derive.  It is downgraded now. *)
 Definition arc_cycle : dgraph :=
   [(0, DMsg [DPath 1; DPath 2]); (1, DMsg [DArc (DPath 0)]); (2, DMsg [DBase BF64])].
 Definition btree_cycle : dgraph :=
   [(0, DMsg [DPath 1; DPath 2]); (1, DMsg [DBTreeSet (DPath 0)]); (2, DMsg [DBase BF64])].
 
-Lemma derive_delay_edge_refuted :
+Example derive_cycle_edge_fixed :
   forall g, g = arc_cycle \/ g = btree_cycle ->
-  exists m, run HEO g [0; 1; 2] = Done m /\
-    closed_b g = true /\ btree_unsupported_b HEO g = false /\ ws_complete_b g = false /\
-    derives m 1 = true /\ derives m 0 = false /\ ~ consistent HEO g (derives m) /\ ~ supports HEO g 1.
-Proof.
-  intros g [-> | ->]; (eexists; split; [vm_compute; reflexivity|]); repeat split; try (vm_compute; reflexivity).
-  - intros C. specialize (C 1 _ _ eq_refl eq_refl eq_refl). vm_compute in C. discriminate.
-  - intros S. assert (R : contains arc_cycle 1 2).
-    { apply contains_step with (p := 0); [vm_compute; auto|]. apply contains_step with (p := 2); [vm_compute; auto|]. constructor. }
-    specialize (S 2 _ _ R eq_refl eq_refl). vm_compute in S. discriminate.
-  - intros C. specialize (C 1 _ _ eq_refl eq_refl eq_refl). vm_compute in C. discriminate.
-  - intros S. assert (R : contains btree_cycle 1 2).
-    { apply contains_step with (p := 0); [vm_compute; auto|]. apply contains_step with (p := 2); [vm_compute; auto|]. constructor. }
-    specialize (S 2 _ _ R eq_refl eq_refl). vm_compute in S. discriminate.
-Qed.
+    decisions HEO g [0; 1; 2] = Done [(0, No); (1, No); (2, No)] /\
+    decisions PO g [0; 1; 2] = Done [(0, Delay); (1, Delay); (2, Yes)] /\
+    verdict HEO g [0; 1; 2] = Done true.
+Proof. intros g [-> | ->]; repeat split; vm_compute; reflexivity. Qed.
 
 (* ---- non-vacuity: cycles closed through list / map / optional fields with a float leaf in a LATER field, in both
    declaration orders (the shape on which a downgrade through the type graph instead of the workspace graph goes wrong):
@@ -1011,8 +992,7 @@ Definition list_cycle : dgraph :=
    (7, DMsg [DMap (DBase BFastStr) (DPath 3)])].              (* M { m: map<string, T> } *)
 
 Example derive_nonvacuous :
-  closed_b list_cycle = true /\ ws_complete_b list_cycle = true /\
-  btree_unsupported_b HEO list_cycle = false /\ btree_unsupported_b PO list_cycle = false /\
+  closed_b list_cycle = true /\
   decisions HEO list_cycle [0; 1; 2; 3; 4; 5; 6; 7] = Done [(0, No); (1, No); (2, No); (3, Yes); (4, Yes); (5, Yes); (7, No)] /\
   decisions HEO list_cycle [7; 6; 5; 1; 0; 2] = Done [(0, No); (1, No); (2, No); (3, Yes); (4, Yes); (5, Yes); (7, No)] /\
   decisions PO list_cycle [0; 1; 2; 3; 4; 5; 6; 7] = Done [(0, Delay); (1, Delay); (2, Yes); (3, Yes); (4, Yes); (5, Yes); (7, No)] /\
